@@ -245,7 +245,14 @@ func (s *store) listFull() (result listFullResult) {
 func (s *store) authenticate(username, password string) (result authenticateResult) {
 	result.ok, result.isAdmin, result.upgradeable, result.lastChanged, result.err = s.dir.Authenticate(username, password)
 	if result.ok && result.upgradeable && s.upgradeChan != nil {
-		s.upgradeChan <- updateRequest{username: username, password: password}
+		// This runs inside the dispatcher, which for local upgrades is also the consumer of
+		// this queue - never block here. If the queue is full the hash will be upgraded on
+		// one of the next logins.
+		select {
+		case s.upgradeChan <- updateRequest{username: username, password: password}:
+		default:
+			wdl.Printf("upgrade: queue is full, ignoring upgrade request for '%s'", username)
+		}
 	}
 	return
 }
